@@ -137,6 +137,11 @@ class Client:
         """(may enter body, may finish) for a `for` head"""
         return True, True
 
+    def relevant_iter(self, ev: Event) -> bool:
+        """does this `for` head concern the client's typestate? (incidental loops in helpers - copying a dict,
+        scanning a list - must not be mistaken for the loop the client reasons about)"""
+        return True
+
     # ---- typestate -------------------------------------------------------------------
     def on_event(self, ev: Event, cs: Any) -> Any:
         """cstate after the event completes normally (before exceptions are considered
@@ -455,6 +460,8 @@ class Interp:
         if len(path) >= 2 and path[-1] != "$type" and not is_temp(path) and not self.client.track_attr(path[-1]):
             if val is not None and val != KILL and val[0] == "i":
                 pass  # keep the structure of records (their fields are filtered recursively)
+            elif self._is_param_object(env.get(path[:-1] + ("$type",))):
+                pass  # fields of a parameter object introduced by a refactoring carry what the parameters carried
             else:
                 return
         if val is None or val == KILL:
@@ -470,12 +477,32 @@ class Interp:
             return
         env[path] = val
 
+    def _is_param_object(self, ty: Any) -> bool:
+        if ty is None or ty[0] != "c" or not isinstance(ty[1], str):
+            return False
+        known = self.__dict__.get("_known_classes")
+        if known is None:
+            import os
+
+            try:
+                with open(os.path.join(os.path.dirname(os.path.abspath(__file__)), "known_classes.txt")) as fh:
+                    known = {ln.strip() for ln in fh if ln.strip()}
+            except OSError:
+                known = set(self.prog.classes)
+            self.__dict__["_known_classes"] = known
+        return ty[1] in self.prog.classes and ty[1] not in known
+
     def _assign_target(self, env: dict, tgt: ast.expr, val: Any, cfg: CFG) -> None:
         if isinstance(tgt, (ast.Tuple, ast.List)):
             for i, e in enumerate(tgt.elts):
                 sub = None
                 if val is not None and val[0] == "t" and i < len(val[1]):
                     sub = val[1][i]
+                elif val is not None and val[0] == "i" and val[1] in self.prog.classes:
+                    # unpacking a record (NamedTuple parameter object): fields in declaration order
+                    fields = self.prog.all_fields(self.prog.classes[val[1]])
+                    if i < len(fields):
+                        sub = dict(val[2]).get(fields[i])
                 self._assign_target(env, e, sub, cfg)
             return
         p = self.path_of(tgt)
@@ -628,8 +655,11 @@ class Interp:
                     go(node, env2, cs2, w2, lab)
             elif k == "iter":
                 ev = Event("iter", node, cfg, self, env, stack)
-                body, done = self.client.loop_edges(ev)
-                cs2 = self.client.on_event(ev, cs)
+                if self.client.relevant_iter(ev):
+                    body, done = self.client.loop_edges(ev)
+                    cs2 = self.client.on_event(ev, cs)
+                else:
+                    body, done, cs2 = True, True, cs
                 if body:
                     env2 = dict(env)
                     self._assign_target(env2, node.info["target"], None, cfg)
@@ -807,7 +837,7 @@ class Interp:
                     cs_in = self.client.on_event(Event("enter", node, cfg, self, env, stack, target=tg), cs)
                     cenv, links = self._bind(call, tg, env, cfg)
                     rd = self.prog.reads(callee)
-                    cenv = {p: v for p, v in cenv.items() if len(p) < 2 or p[-1] in rd or p[-1] == "$type"}
+                    cenv = {p: v for p, v in cenv.items() if len(p) < 2 or p[-1] in rd or p[-1] == "$type" or self._is_param_object(cenv.get(p[:-1] + ("$type",)))}
                     w1 = self._witness(w, ("call", callee.qual, f"{fi.module.relpath}:{node.lineno}"))
                     exits = self.run(callee, cenv, cs_in, stack + ((fi.qual, node.lineno),))
                     for ex in exits:
@@ -887,6 +917,21 @@ class Interp:
     def _lib_value(self, call: ast.Call, name: str, env: dict, cfg: CFG) -> Any:
         if name == "typing.cast" and len(call.args) == 2:
             return self.ev(call.args[1], env, cfg)
+        if name.endswith(("dataclasses.replace", "._replace")) or name == "replace":
+            # dataclasses.replace(rec, f=v, ...) / namedtuple._replace(f=v): a copy of the record with those fields changed
+            base_e = call.args[0] if call.args and not name.endswith("._replace") else (call.func.value if isinstance(call.func, ast.Attribute) else None)
+            base = self.ev(base_e, env, cfg) if base_e is not None else None
+            if base is not None and base[0] == "i":
+                fields = dict(base[2])
+                for kw in call.keywords:
+                    if kw.arg is None:
+                        return None
+                    v = self.ev(kw.value, env, cfg)
+                    if v is None:
+                        fields.pop(kw.arg, None)
+                    else:
+                        fields[kw.arg] = v
+                return ("i", base[1], tuple(sorted(fields.items())))
         return None
 
     def _do_await(self, cfg: CFG, node: Node, env: dict, cs: Any, w: int, stack: tuple, go, raise_from) -> None:
